@@ -55,7 +55,8 @@ func nilSliceI() *sx.Sexp { return sx.L(sx.A("slice"), sx.Bool(true), sx.Bool(tr
 func nilMapI() *sx.Sexp   { return sx.L(sx.A("smap"), sx.Bool(true), sx.Bool(true)) }
 
 var specialStrings = []string{"<a&'\">", "x", "", "a<b", "&amp;", "'q'", "\"", "é<", "plain", "<<>>", "a\x00b", "T&C", "1", "0",
-	"caf\xc3<i>", "\xe9 <b>&", "\xf0\"><img>", "\xe2\x82<", "\xff'"} // the last five: malformed UTF-8 right before a special byte
+	"caf\xc3<i>", "\xe9 <b>&", "\xf0\"><img>", "\xe2\x82<", "\xff'", // malformed UTF-8 right before a special byte
+	"caf\xc3", "<e\xe2\x82", "&\xf0\x9f\x98", "\xe2"} // the last four: values that END in an incomplete multi-byte sequence
 
 func genScalar(r *h.Rand) *sx.Sexp {
 	switch r.Intn(7) {
